@@ -553,6 +553,9 @@ func eqValue(fr *frame, t types.Type, x, y value) value {
 		if xv.t == nil {
 			return true
 		}
+		if xv.t == rtypeType {
+			return types.Identical(xv.v.(rtype).t, yv.v.(rtype).t)
+		}
 		if !types.Comparable(xv.t) {
 			panic(runtimeErr{"comparing uncomparable type " + xv.t.String()})
 		}
